@@ -19,7 +19,7 @@ RULE = ('operations over a universe of 14 rules (shared and splitting prefixes, 
         'history of length <= D over the whole alphabet (D=2 quick, 3 thorough) by re-execution; random units: histories of length 6-30. After each '
         'history: probes on ~30 paths x 2 verbs + names + rules + routes + WSGI hook traces, real vs freshly built. Non-trivial = the history '
         'contains a removal or a rejected operation; distinct = distinct history.')
-REQUIRED = ['histories', 'ops_applied', 'ops_rejected', 'resolve_probes', 'name_probes', 'wsgi_probes', 'hook_firings_compared', 'structure_checks',
+REQUIRED = ['op_add_method_list', 'histories', 'ops_applied', 'ops_rejected', 'resolve_probes', 'name_probes', 'wsgi_probes', 'hook_firings_compared', 'structure_checks',
             'op_add', 'op_remove', 'op_remove_name', 'op_remove_prefix', 'op_add_hook', 'op_remove_hook', 'op_overwrite', 'rejected_method_clash',
             'rejected_name_clash', 'hook_reference_checked', 'removed_then_probed', 'hook_only_prefix_probed']
 EXHAUSTIVE = {'quick': True, 'thorough': True, 'quick_note': 'all histories of length <= 2 over the 76-operation alphabet',
@@ -65,6 +65,10 @@ def alphabet():
         ops.append(('add', r, 'GET', None, True))
     for r in ('/ab', '/h/x'):
         ops.append(('add', r, 'GET', 'n1', True))
+    # several methods in one call: rejected as a whole when one of them is taken
+    for r in ('/a', '/a/<x>', '/h/x'):
+        ops.append(('add', r, ('PATCH', 'GET'), None, False))
+        ops.append(('add', r, ('GET', 'PATCH'), 'n2', False))
     for r in RULES:
         ops.append(('remove', r))
     ops.append(('remove_name', 'n1'))
@@ -104,7 +108,7 @@ class Sys:
             if kind == 'add':
                 _, rule, meth, name, ow = op
                 hid, h = self.mk_handler(self.log)
-                app.route(rule, meth, h, name=name, overwrite=ow)
+                app.route(rule, list(meth) if isinstance(meth, (tuple, list)) else meth, h, name=name, overwrite=ow)
             elif kind == 'remove':
                 app.remove_route(op[1])
             elif kind == 'remove_name':
@@ -130,7 +134,10 @@ class Sys:
             _, rule, meth, name, ow = op
             ctx.count('op_overwrite' if ow else 'op_add')
             cur = self.routes.get(rule)
-            method_clash = cur is not None and meth in cur['methods'] and not ow
+            meths = list(meth) if isinstance(meth, (tuple, list)) else [meth]
+            if len(meths) > 1:
+                ctx.count('op_add_method_list')
+            method_clash = cur is not None and any(m in cur['methods'] for m in meths) and not ow
             name_clash = name is not None and self.names.get(name) not in (None, rule) and not ow
             family = any(rule in f for f in FAMILIES)
             if ok:
@@ -140,7 +147,8 @@ class Sys:
                     ctx.violation('taken-name-accepted-without-overwrite', f'{op}', None)
                 if cur is None:
                     cur = self.routes[rule] = {'methods': {}, 'names': set()}
-                cur['methods'][meth] = hid
+                for m in meths:
+                    cur['methods'][m] = hid
                 if name is not None:
                     old = self.names.get(name)
                     if old is not None and old != rule and old in self.routes:
